@@ -77,8 +77,17 @@ func (c *VC) cur() *frame { return c.frames[len(c.frames)-1] }
 // initial heap constant, or (after a havoc of all heaps) a constant tied to the
 // havoc generation marker.
 func (c *VC) heapDefault(st *State, name string, s *Sort) *Term {
-	if g, ok := st.heaps["#gen"]; ok {
-		return c.declare(name+"!g"+sanitize(g.Op), s)
+	// most specific generation marker first: this heap, its prefix class, all heaps
+	for _, k := range []string{"#gen:" + name, "#gen:HP_*", "#gen:HM*", "#gen"} {
+		if k == "#gen:HP_*" && !strings.HasPrefix(name, "HP_") {
+			continue
+		}
+		if k == "#gen:HM*" && !strings.HasPrefix(name, "HM") {
+			continue
+		}
+		if g, ok := st.heaps[k]; ok {
+			return c.declare(name+"!g"+sanitize(g.Op), s)
+		}
 	}
 	return c.declare(name+"!0", s)
 }
@@ -90,15 +99,37 @@ func (c *VC) heapOr(st *State, name string, s *Sort) *Term {
 	return c.heapDefault(st, name, s)
 }
 
-func (c *VC) sliceHeapName(elem *Sort) string { return "HS_" + sanitize(elem.Name) }
+func (c *VC) sliceHeapName(elem types.Type) string { return "HS_" + leafClassDeep(elem) }
+
+// leafClassDeep names the element class of a slice heap: leaf classes as for pointer heaps,
+// structs and arrays by their (sanitised) type so that rows of different element types never mix.
+func leafClassDeep(t types.Type) string {
+	switch u := t.Underlying().(type) {
+	case *types.Struct:
+		n := sanitize(types.TypeString(t, func(p *types.Package) string { return p.Name() }))
+		if len(n) > 60 {
+			n = fmt.Sprintf("%s_%x", n[:48], hashStr(n))
+		}
+		return "st_" + n
+	case *types.Array:
+		return fmt.Sprintf("arr%d_%s", u.Len(), leafClassDeep(u.Elem()))
+	}
+	return leafClass(t)
+}
 // leafClass groups leaf Go types that may legitimately share memory cells (same width and
 // representation class); each class has its own heap, so that e.g. an int32 cell and a
 // pointer cell never interfere even when both are modelled by the SMT sort Int.
 func leafClass(t types.Type) string {
 	switch u := t.Underlying().(type) {
 	case *types.Basic:
-		if w, _, ok := intInfo(u); ok {
-			return fmt.Sprintf("i%d", w)
+		if w, signed, ok := intInfo(u); ok {
+			// signed and unsigned cells are kept apart: in int mode a value is a mathematical
+			// integer with the range of its type, so reading a cell at the other signedness
+			// would need a conversion that a type-safe program never relies on
+			if signed {
+				return fmt.Sprintf("i%d", w)
+			}
+			return fmt.Sprintf("u%d", w)
 		}
 		if w, ok := isFloat(u); ok {
 			return fmt.Sprintf("f%d", w)
@@ -122,12 +153,12 @@ func leafClass(t types.Type) string {
 
 func (c *VC) ptrHeapNameT(t types.Type) string { return "HP_" + leafClass(t) }
 
-func (c *VC) sliceHeap(st *State, elem *Sort) (string, *Term) {
+func (c *VC) sliceHeap(st *State, elem types.Type) (string, *Term) {
 	n := c.sliceHeapName(elem)
 	if h, ok := st.heaps[n]; ok {
 		return n, h
 	}
-	h := c.heapDefault(st, n, arraySort(sortInt, arraySort(c.idxSort(), elem)))
+	h := c.heapDefault(st, n, arraySort(sortInt, arraySort(c.idxSort(), c.sortOf(elem))))
 	return n, h
 }
 
@@ -173,7 +204,7 @@ func (c *VC) merge(a, b *State) *State {
 	for _, k := range sortedKeys(keys) {
 		va, oka := a.heaps[k]
 		vb, okb := b.heaps[k]
-		if k == "#gen" {
+		if strings.HasPrefix(k, "#gen") {
 			if !oka || !okb || !termEq(va, vb) {
 				n.heaps[k] = c.fresh("gen", sortInt)
 			} else {
@@ -537,10 +568,9 @@ func (c *VC) bindVar(st *State, obj types.Object, v *Term) {
 	if fr.arrBoxed[obj] {
 		// array stored as a row of the slice heap: env holds the Slice header
 		at := obj.Type().Underlying().(*types.Array)
-		es := c.sortOf(at.Elem())
 		base := st.alloc
 		st.alloc = c.name("alloc", mk("+", sortInt, st.alloc, intLit64(1)))
-		hn, h := c.sliceHeap(st, es)
+		hn, h := c.sliceHeap(st, at.Elem())
 		st.heaps[hn] = mkStore(h, base, v)
 		n := c.idxLit(at.Len())
 		st.env[obj] = mkCtor(c.sliceSort(), base, c.idxLit(0), n, n)
@@ -574,7 +604,7 @@ func (c *VC) readVar(st *State, obj types.Object) *Term {
 	}
 	if fr.arrBoxed[obj] {
 		at := obj.Type().Underlying().(*types.Array)
-		_, h := c.sliceHeap(st, c.sortOf(at.Elem()))
+		_, h := c.sliceHeap(st, at.Elem())
 		return c.sel(h, mkField(v, "sl_base"))
 	}
 	return v
@@ -598,7 +628,7 @@ func (c *VC) writeVar(st *State, obj types.Object, v *Term) {
 			return
 		}
 		at := obj.Type().Underlying().(*types.Array)
-		hn, h := c.sliceHeap(st, c.sortOf(at.Elem()))
+		hn, h := c.sliceHeap(st, at.Elem())
 		st.heaps[hn] = mkStore(h, mkField(hd, "sl_base"), v)
 		return
 	}
@@ -657,12 +687,21 @@ func (c *VC) wfAt(st *State, v *Term, t types.Type) *Term {
 // ---------------------------------------------------------------- loops
 
 type loopEffects struct {
-	vars  map[types.Object]bool
-	heaps bool
+	vars      map[types.Object]bool
+	heaps     bool            // some heap may change
+	all       bool            // unknown effects: every heap may change
+	heapNames map[string]bool // when !all: the heaps that may change ("HP_*" / "HM*" = every heap with that prefix)
+}
+
+func (ef *loopEffects) touch(names ...string) {
+	ef.heaps = true
+	for _, n := range names {
+		ef.heapNames[n] = true
+	}
 }
 
 func (c *VC) effectsOf(nodes ...ast.Node) loopEffects {
-	ef := loopEffects{vars: map[types.Object]bool{}}
+	ef := loopEffects{vars: map[types.Object]bool{}, heapNames: map[string]bool{}}
 	view := c.cur().view
 	var markLHS func(e ast.Expr)
 	markLHS = func(e ast.Expr) {
@@ -670,8 +709,13 @@ func (c *VC) effectsOf(nodes ...ast.Node) loopEffects {
 		case *ast.Ident:
 			if o := view.objOf(e); o != nil {
 				ef.vars[o] = true
-				if c.cur().boxed[o] || c.cur().arrBoxed[o] {
-					ef.heaps = true
+				if c.cur().boxed[o] {
+					ef.touch("HP_*")
+				}
+				if c.cur().arrBoxed[o] {
+					if at, ok := o.Type().Underlying().(*types.Array); ok {
+						ef.touch(c.sliceHeapName(at.Elem()))
+					}
 				}
 			}
 		case *ast.ParenExpr:
@@ -679,21 +723,31 @@ func (c *VC) effectsOf(nodes ...ast.Node) loopEffects {
 		case *ast.SelectorExpr:
 			if tv, ok := view.typeOf(e.X); ok {
 				if _, isPtr := tv.Type.Underlying().(*types.Pointer); isPtr {
-					ef.heaps = true
+					ef.touch("HP_*")
 					return
 				}
 			}
 			markLHS(e.X)
 		case *ast.IndexExpr:
 			if tv, ok := view.typeOf(e.X); ok {
-				if _, isArr := tv.Type.Underlying().(*types.Array); isArr {
+				switch u := tv.Type.Underlying().(type) {
+				case *types.Array:
 					markLHS(e.X)
+					return
+				case *types.Slice:
+					ef.touch(c.sliceHeapName(u.Elem()))
+					return
+				case *types.Map:
+					ef.touch("HM*")
+					return
+				case *types.Pointer:
+					ef.touch("HP_*")
 					return
 				}
 			}
-			ef.heaps = true
+			ef.heaps, ef.all = true, true
 		case *ast.StarExpr:
-			ef.heaps = true
+			ef.touch("HP_*")
 		}
 	}
 	for _, n := range nodes {
@@ -721,7 +775,11 @@ func (c *VC) effectsOf(nodes ...ast.Node) loopEffects {
 				}
 			case *ast.CallExpr:
 				if !c.callIsHeapPure(n) {
-					ef.heaps = true
+					if names, ok := c.callHeapNames(n); ok {
+						ef.touch(names...)
+					} else {
+						ef.heaps, ef.all = true, true
+					}
 				}
 			case *ast.FuncLit:
 				return true
@@ -886,7 +944,11 @@ func (c *VC) loopCut(st *State, tg *target, ld *LoopDir, ord int, ef loopEffects
 		st.env[o] = nv
 	}
 	if ef.heaps {
-		c.havocHeaps(st)
+		if ef.all {
+			c.havocHeaps(st)
+		} else {
+			c.havocNamedHeaps(st, ef.heapNames)
+		}
 		na := c.fresh("alloc", sortInt)
 		c.addFact(tTrue, mk(">=", sortBool, na, pre.alloc))
 		st.alloc = na
@@ -965,9 +1027,98 @@ func sortedKeysT(m map[string]*Term) []string {
 // havocUntouchedHeaps: after a heap-havocking loop or call, heaps that were never
 // materialised in st.heaps must not silently keep their initial value. We record
 // a generation marker: any heap first touched afterwards gets a fresh constant.
+// havocNamedHeaps forgets only the listed heaps ("HP_*" / "HM*": all with that prefix). Heaps that
+// were never touched before and are named exactly are materialised first so that they get a fresh value.
+func (c *VC) havocNamedHeaps(st *State, names map[string]bool) {
+	for _, hn := range sortedKeysT(st.heaps) {
+		if strings.HasPrefix(hn, "#gen") {
+			continue
+		}
+		hit := names[hn] || (names["HP_*"] && strings.HasPrefix(hn, "HP_")) || (names["HM*"] && strings.HasPrefix(hn, "HM"))
+		if hit {
+			st.heaps[hn] = c.fresh(hn, st.heaps[hn].Sort)
+		}
+	}
+	// heaps named but not yet materialised: they would silently keep their default value; since the
+	// sort is unknown here, fall back to a generation marker only when a prefix class is involved
+	for n := range names {
+		if n == "HP_*" || n == "HM*" {
+			st.heaps["#gen:"+n] = c.fresh("gen", sortInt)
+			continue
+		}
+		if _, ok := st.heaps[n]; !ok {
+			st.heaps["#gen:"+n] = c.fresh("gen", sortInt)
+		}
+	}
+}
+
+// callHeapNames: the heaps a non-pure call may modify, when that is statically known.
+func (c *VC) callHeapNames(call *ast.CallExpr) ([]string, bool) {
+	view := c.cur().view
+	if id, ok := ast.Unparen(call.Fun).(*ast.Ident); ok {
+		if b, ok := view.objOf(id).(*types.Builtin); ok {
+			switch b.Name() {
+			case "append", "copy":
+				if tv, ok := view.typeOf(call.Args[0]); ok {
+					if sl, ok := tv.Type.Underlying().(*types.Slice); ok {
+						return []string{c.sliceHeapName(sl.Elem())}, true
+					}
+				}
+			case "delete", "clear":
+				return []string{"HM*"}, true
+			}
+			return nil, false
+		}
+	}
+	fn := c.staticCallee(call)
+	if fn == nil {
+		return nil, false
+	}
+	fi := c.prog.funcs[fn]
+	if fi == nil || fi.Contract == nil || c.shouldInline(fi) {
+		return nil, false
+	}
+	K := fi.Contract
+	kview := c.prog.view(K.Pkg)
+	var names []string
+	ok := true
+	ast.Inspect(K.Decl.Body, func(n ast.Node) bool {
+		cl, isCall := n.(*ast.CallExpr)
+		if !isCall {
+			return true
+		}
+		id, isId := cl.Fun.(*ast.Ident)
+		if !isId || !strings.HasPrefix(id.Name, "modifies") {
+			return true
+		}
+		if id.Name == "modifiesAll" || len(cl.Args) == 0 {
+			ok = false
+			return false
+		}
+		tv, has := kview.typeOf(cl.Args[0])
+		if !has {
+			ok = false
+			return false
+		}
+		switch u := tv.Type.Underlying().(type) {
+		case *types.Slice:
+			names = append(names, c.sliceHeapName(u.Elem()))
+		case *types.Pointer:
+			names = append(names, "HP_*")
+		case *types.Map:
+			names = append(names, "HM*")
+		default:
+			ok = false
+		}
+		return true
+	})
+	return names, ok
+}
+
 func (c *VC) havocHeaps(st *State) {
 	for _, hn := range sortedKeysT(st.heaps) {
-		if hn == "#gen" {
+		if strings.HasPrefix(hn, "#gen") {
+			delete(st.heaps, hn)
 			continue
 		}
 		st.heaps[hn] = c.fresh(hn, st.heaps[hn].Sort)
